@@ -157,9 +157,11 @@ example : InvOK exInvE2E := exInvE2E_ok
 /-- Node `n1` of the example inventory renders (layers under `a` merged, `~b` overridden, the
 references `${a:x}` and `${_reclass_:name:short}` resolved, the `=`/`~` markers gone) … -/
 example : nodeJson (renderNode 30 exInvE2E "n1".toList) = some
-    ("{\"_reclass_\":{\"environment\":\"base\",\"name\":{\"full\":\"n1\",\"parts\":[\"n1\"]," ++
-     "\"path\":\"n1\",\"short\":\"n1\"}},\"a\":{\"x\":\"1\",\"y\":2,\"z\":\"n1\"},\"b\":\"over\"," ++
-     "\"k\":\"v\",\"l\":[\"1\",true,null]}").toList := by decide +kernel
+    ("{\"_reclass_\":{\"environment\":\"base\",".toList ++
+     "\"name\":{\"full\":\"n1\",\"parts\":[\"n1\"],".toList ++
+     "\"path\":\"n1\",\"short\":\"n1\"}},".toList ++
+     "\"a\":{\"x\":\"1\",\"y\":2,\"z\":\"n1\"},".toList ++ "\"b\":\"over\",".toList ++
+     "\"k\":\"v\",\"l\":[\"1\",true,null]}".toList) := by decide +kernel
 
 /-- … so the conclusion of `renderNode_closed` holds for it. -/
 example : ∃ info, renderNode 30 exInvE2E "n1".toList = .ok info ∧
@@ -175,16 +177,22 @@ example : ¬ SrcOK { params := [(.str "==a".toList, .null)] } := by
   simp only [SrcOK, SingleMarker, SingleMarkerEs, Yaml.keyOK]
   intro h; exact absurd h.1 (by decide)
 
-/-- … and it is needed: with a class file `{a: {x: true}, "==a": {x: false}}` the rendered node
-still holds a layer list (cf. `C07.wf_needed`), which `jsonOf` refuses. -/
-example : TextL.errOf (match renderNode 30
-    { classes := [("c".toList, { path := ["c.yml".toList], loc := [] },
-        .ok { params := [(.str "a".toList, .map [(.str "x".toList, .bool true)]),
-                         (.str "==a".toList, .map [(.str "x".toList, .bool false)])] })],
-      nodes := [("n".toList, { path := ["n.yml".toList], loc := [] },
-        .ok { classes := ["c".toList] })] } "n".toList with
-    | .ok info => jsonOf info.params.toValue
-    | .error e => .error e) = some (.panic .jsonVl) := by decide +kernel
+/-- … and a marker hypothesis is needed end to end: with a class file
+`{a: {x: true}, "===a": {x: false}}` the node renders *successfully*, but its parameters still
+hold a layer list (cf. `C07.wf_needed`; decoding and the merge into the accumulator strip one
+marker each, the stored key `=a` then collides with `a` during rendering), which `jsonOf`
+refuses (`todo!()` in `From<Value> for serde_json::Value`). -/
+def exInvTriple : Inv :=
+  { classes := [("c".toList, { path := ["c.yml".toList], loc := [] },
+      .ok { params := [(.str "a".toList, .map [(.str "x".toList, .bool true)]),
+                       (.str "===a".toList, .map [(.str "x".toList, .bool false)])] })],
+    nodes := [("n".toList, { path := ["n.yml".toList], loc := [] },
+      .ok { classes := ["c".toList] })] }
+
+example : TextL.errOf (renderNode 30 exInvTriple "n".toList) = none ∧
+    TextL.errOf (match renderNode 30 exInvTriple "n".toList with
+      | .ok info => jsonOf info.params.toValue
+      | .error e => .error e) = some (.panic .jsonVl) := by decide +kernel
 
 end C07
 end Reclass
